@@ -1,5 +1,5 @@
 """Which units and lemmas serve which property (DESIGN §4/§5)."""
-from . import sm, ps, ef, z
+from . import sm, ps, ef, z, mainspec
 
 A_IDEAL = 'A-IDEAL: float/double arithmetic treated as real arithmetic, source literals exact (rounding not modelled)'
 A_SUMCOMM = 'L-SUMCOMM: interchange of finite double sums (column sums = 1 => total conserved) not machine-checked'
@@ -11,7 +11,7 @@ NOT_APPLICABLE = {
     'C11': 'relation between two complete program executions through an HDF5 file; no function contract expresses it (DESIGN §6)',
     'C20': 'behaviour is produced inside boost::program_options; a contract proof would be about an axiomatisation of boost (DESIGN §6)',
 }
-for _p in ('C03 C04 C05 C10 C12 C13 C14 C17 C19').split():
+for _p in ('C05 C10 C12 C13 C14 C19').split():
     NOT_APPLICABLE[_p] = PENDING
 
 SM_KICK = [sm.CalcCoefficiants, sm.UpdateSM, sm.KickMapApply, sm.SourceMapCtor, sm.SourceMapCtor7, sm.KickMapCtor,
@@ -121,6 +121,45 @@ PROPERTIES = {
         'assumptions': [A_IDEAL, A_LIB, DROPS, 'libm: pow(x>=0,y) >= 0, sqrt(x>=0) >= 0'],
         'uncovered': ['ParallelPlatesCSR (Airy sums), CollimatorImpedance, the factory makeImpedance', 'causality (one-sidedness of the wake) and asymptotics', 'n in {0,1}'],
         'explanation': 'shape, passivity and closed-form posts of the __calcImpedance functions',
+        'technique': TECH,
+    },
+    'C03': {
+        'units': [sm.RFCalcKick, sm.RFKickMapLinearCtor, sm.RFKickMapSinCtor, sm.DriftMapCtor, sm.KickMapCtor, sm.UpdateSM, sm.KickMapApply,
+                  sm.CalcCoefficiants, ps.RulerCtor, mainspec.MainConfig, mainspec.MainPhysics],
+        'lemmas': [sm.lemmas_c03, sm.lemmas_weights],
+        'level': 'other',
+        'claim': 'one-step law: the RF map displaces row x by tan(angle)*(zerobin-x) cells (sinusoidal: the stated sine law), the drift displaces row y by slip*p(y)/delta_q with slip0 = angle = 2*pi/steps, '
+                 'positions measured from the zero bin of the (possibly shifted) axis; the resulting centroid map has determinant 1 and trace 2-theta*tan(theta); closure over a full period follows analytically and is not machine-checked',
+        'assumptions': [A_IDEAL, A_LIB, DROPS, 'tan/sin uninterpreted', 'equal cell sizes in q and p (same PhaseSpaceSize and GridSize for both axes in main)'],
+        'uncovered': ['orbit closure after steps iterations (analytic consequence of the one-step matrix)', 'small-amplitude linearisation of the sinusoidal model'],
+        'explanation': 'contracts of the RF and drift map builders, of the axis, and of main configuration arithmetic, plus matrix lemma',
+        'technique': TECH,
+    },
+    'C04': {
+        'units': [sm.FokkerPlanckCtor, sm.FokkerPlanckApply, ps.Variance, ps.Average, ps.RulerCtor, mainspec.MainPhysics],
+        'lemmas': [sm.lemmas_fp, sm.lemmas_c04, ps.lemmas_ruler],
+        'level': 'other',
+        'claim': 'per-step moment law of the damping/diffusion operator the constructor builds (all four variants, both stencils): m0=1, mean -> (1-e1)*mean, second moment -> (1-2e1)v + 2e1 - c*e1*delta^2 with 0<=c<=1, '
+                 'e1 = 2/(fs*t_damp*steps); reported spread is the square root of the second moment of the bunch own projection; the scalar recurrence contracts to 1 - c*delta^2/2',
+        'assumptions': [A_IDEAL, A_LIB, DROPS],
+        'uncovered': ['coupling with the rotation and numerical diffusion of the interpolation over many damping times (whole-run statement)'],
+        'explanation': 'row contract of the stencil table + pure moment lemmas + recurrence lemma',
+        'technique': TECH,
+    },
+    'C17': {
+        'units': SM_KICK + SM_FP + [sm.IdentityApply, sm.KickMapApplyTo, sm.FokkerPlanckApplyTo,
+                                    ps.RulerCtor, ps.SimpsonWeights, ps.UpdateXProjection, ps.UpdateYProjection, ps.Integrate, ps.Normalize, ps.Average, ps.Variance, ps.Swap,
+                                    ef.PadBunchProfiles, ef.WakePotential, ef.UpdateCSR,
+                                    z.FreeSpaceCSRCalc, z.ResistiveWallCalc, z.ConstImpedanceCalc, z.ImpedanceAddAssign, mainspec.MainConfig],
+        'lemmas': [],
+        'level': 'other',
+        'claim': 'every array subscript, pointer range (copy_n/fill_n/inner_product/FFT buffers), float-to-integer conversion, signed overflow, unsigned index product and division in the units under contract '
+                 'is proved defined under the class invariants, and main establishes the padded-buffer precondition for every bucket; unbounded in all sizes',
+        'assumptions': [A_IDEAL, A_LIB, DROPS, 'libraries are memory safe when their stated preconditions hold', 'documented option domain (see MainConfig.requires and domain_after)'],
+        'uncovered': ['functions not under contract: PhaseSpace constructors, PhaseSpaceFactory (TXT/HDF5 start distributions), HDF5File, ProgramOptions, ParallelPlatesCSR, makeImpedance, RotationMap, Display',
+                      'uninitialised reads (tables are written before use by construction order, checked only where a unit reads what it wrote)',
+                      'zero-energy bin outside the grid for the cubic Fokker-Planck stencil (precondition zerobin_inside)'],
+        'explanation': 'automatic safety obligations of all units',
         'technique': TECH,
     },
 }
